@@ -563,7 +563,16 @@ T(t_modpow_opt)(T(ctx) *c, int which)
 	} else {
 		/* sizes in 64-bit words */
 		min_doc = min_impl = mw;
-		if (c->n >= 4) {
+#if !I62_NATIVE
+		/* build without 64x64->128 multiplications: br_i62_modpow_opt() hands the area to
+		   br_i31_modpow_opt(), whose two temporaries are padded to an even word count */
+		min_impl = mwe;
+		for (w = 2; w <= 5; w ++) thr[nthr ++] = ((((size_t)1 << w) + 1) * mwe + 1) >> 1;
+		vf_distinct("i62_backend", "i31-fallback");
+#else
+		vf_distinct("i62_backend", "native");
+#endif
+		if (I62_NATIVE && c->n >= 4) {
 			thr[nthr ++] = 4 * mw62;   /* 62-bit code path, window 1 */
 			for (w = 2; w <= 5; w ++) thr[nthr ++] = (((size_t)1 << w) + 3) * mw62;
 		}
